@@ -91,3 +91,55 @@ contract(_P + "_package_groups#offsets",
          note="the running line counter handed to _package_chunk is the total number of lines of all earlier chunks, so every part's "
               "line_offset is the index of its first line in the (pre-processed) docstring",
          sentinel=("offsets-ignore-wants", "True == False"))
+
+
+# ------------------------------------------------------------------------ C13.delta / C13.lines: the labeller
+record("EnumIter", seq="list[str]", pos="int", start="int")
+record("ReMatch", start_="int", end_="int")
+tuple_record("LabeledLine", label="str", line="str")
+tuple_record("CompletedLine", part="str", norm_line="str")
+
+contract("xdoctest.parser:_complete_source",
+         params={"line": "str", "state_indent": "int", "line_iter": "EnumIter"}, returns="reclist[CompletedLine]", trusted=True,
+         modifies=["line_iter.pos"],
+         ensures=[("one-pair-per-consumed-line", "len(result) == 1 + line_iter.pos - old(line_iter.pos)"),
+                  ("only-forward", "line_iter.pos >= old(line_iter.pos) and line_iter.pos <= len(line_iter.seq)"),
+                  ("starts-with-the-line-itself", "result[0].part == line and result[0].norm_line == S.substr(line, state_indent, len(line) - state_indent)")],
+         raises={"Exception*?": None},
+         note="assumed here (a generator driving tokenizer-based balance checks): yields the line, then one pair for every further line it "
+              "takes from the shared iterator until the statement is complete; may raise (IncompleteParseError, SyntaxError, tokenizer errors)")
+
+_FIRST = "labeled_lines[before(len(labeled_lines))]"
+contract(_P + "_label_docsrc_lines#labels",
+         params={"self": "DoctestParser", "string": "str"}, returns="recseq[LabeledLine]",
+         requires=[("tabs-expanded", "'\\t' not in string")],
+         raises={"Exception*?": None},
+         ensures=[("every-line-labelled-once", "len(result) == len(string.splitlines())")],
+         loops={0: LoopSpec(header="line_iter",
+                            types={"labeled_lines": "recseq[LabeledLine]"},
+                            invariants=[("one-label-per-consumed-line", "len(labeled_lines) == line_iter.pos"),
+                                        ("the-lines-of-the-docstring", "line_iter.seq == string.splitlines()"),
+                                        ("known-state", "prev_state == 'text' or prev_state == 'dsrc' or prev_state == 'dcnt' or prev_state == 'want'"),
+                                        ("indent-of-the-open-example", "state_indent >= 0 and implies(prev_state == 'text', state_indent == 0)")],
+                            body_post=[("label-follows-the-rule",
+                                        _FIRST + ".label == S.next_label(before(prev_state), line, before(state_indent)) or "
+                                        "(S.next_label(before(prev_state), line, before(state_indent)) == 'dsrc' and " + _FIRST + ".label == 'dcnt' "
+                                        "and S.has_prompt(S.substr(line, state_indent, len(line) - state_indent), '...'))"),
+                                       ("the-line-itself-is-kept", _FIRST + ".line == line"),
+                                       ("state-carried", "prev_state == labeled_lines[len(labeled_lines) - 1].label")]),
+                1: LoopSpec(header="_complete_source(line, state_indent, line_iter)",
+                            types={"labeled_lines": "recseq[LabeledLine]"}, modifies=[],
+                            entry_ghost={"base": "len(labeled_lines)", "labels0": "[x.label for x in labeled_lines]",
+                                         "lines0": "[x.line for x in labeled_lines]", "state0": "curr_state"},
+                            invariants=[("one-label-per-completed-line", "len(labeled_lines) == base + _i1"),
+                                        ("earlier-labels-kept", "[x.label for x in labeled_lines][:base] == labels0 and "
+                                                                "[x.line for x in labeled_lines][:base] == lines0"),
+                                        ("source-labels-only", "curr_state == 'dsrc' or curr_state == 'dcnt'"),
+                                        ("state-untouched-before-the-first-line", "implies(_i1 == 0, curr_state == state0)"),
+                                        ("first-completed-line-is-labelled-first",
+                                         "implies(_i1 >= 1, labeled_lines[base].line == _first1.part and labeled_lines[base].label == "
+                                         "('dcnt' if S.has_prompt(_first1.norm_line, '...') else state0))"),
+                                        ("last-label-is-the-state", "implies(_i1 >= 1, labeled_lines[len(labeled_lines) - 1].label == curr_state)")])},
+         props=["C13"], opts={"native": False},
+         note="labels follow the transition rule S.next_label written from the statement; every line of the docstring gets exactly one label",
+         sentinel=("everything-is-text", "True == False"))
